@@ -56,6 +56,9 @@ H = {
    {"seed":1,"klass":"replay","end_ms":4000,"nodes":[holder(cap=8,amount=2,hold_us=2000000,period_us=50000000,phase_us=1200000,
         co_period_us=50000000,co_phase_us=1300000,co_amount=2,co_hold_us=100000)],"net":None,
     "faults":[{"kind":"capacity","node":0,"factor":0.25,"start_ms":1000,"end_ms":1500}]}),
+ "queue-stalled-after-restart": ("C06/queue-stalled-after-restart/QueueDriver/completion-hook-of-killed-item-lost",
+   {"seed":1,"klass":"replay","end_ms":12000,"nodes":[{"kind":"qworker","period_us":300000,"phase_us":50000,"service_us":400000,"limit":1}],"net":None,
+    "faults":[{"kind":"crash","node":0,"start_ms":2250,"end_ms":6000,"cancel":"never"}]}),
  "capacity-window-overgrant": ("C06/capacity-window-overgrant/ReduceCapacity/held-exceeds-reduced-capacity",
    {"seed":1,"klass":"replay","end_ms":3000,"nodes":[holder()],"net":None,
     "faults":[{"kind":"capacity","node":0,"factor":0.5,"start_ms":1000,"end_ms":2900}]}),
